@@ -393,7 +393,13 @@ def replay(case):
             R, S = case["R"], case["S"]
             expected = None
         try:
-            got = lc_classes.determine_lc_class(Stabilizer((np.array(R, dtype=np.int8), np.array(S, dtype=np.int8)))).id()
+            cobj = lc_classes.determine_lc_class(Stabilizer((np.array(R, dtype=np.int8), np.array(S, dtype=np.int8))))
+            g1 = cobj.get_graph().adjacency_matrix.tolist()
+            got = cobj.id()
+            str(cobj)
+            cobj == cobj
+            if cobj.get_graph().adjacency_matrix.tolist() != g1 or cobj.id() != got:
+                return True, "id()/str()/== changed the class object returned by the classifier: its representative graph differs before and after (id %s)" % got
         except BaseException as e:
             return True, "classifier raised %r on a valid stabilizer R=%s S=%s" % (e, R, S)
         if not (0 <= got < NCLASSES[n]):
